@@ -85,6 +85,8 @@ func runC07(c *Ctx) {
 	c07NamesAndLines(c)
 	c.Rule("C07.O15", "E4", "a 1xx, 204 or 304 response has no body whatever its framing fields say (a 304 may carry the Content-Length of the entity it stands for): the end-of-head state enters a body state only behind the !noBody test, noBody is computed from the status code where the code is parsed, and handleMessage resets it", 3)
 	c07NoBodyStatuses(c)
+	c.Rule("C07.O16", "E4", "all four forms of a request target reach OnURL (origin-, asterisk-, absolute- and authority-form; net/http accepts them all): the start of the target in statePathBefore is not restricted to '/' and '*'; and the request's Host is the target's host when the target names one, the Host field otherwise", 2)
+	c07TargetForms(c)
 	c.Rule("C07.O4", "E8", "request.Close: major<1 -> true; 1.0 -> hasClose || !keepAlive; else hasClose, with hasClose / keepAlive set by the Connection values \"close\" / \"keep-alive\"", 1)
 
 	// ------------------------------------------------------------------ O1
@@ -794,5 +796,108 @@ func c07NoBodyStatuses(c *Ctx) {
 			}
 		}
 		c.Cond(reset, "C07.O15", fnKey(c.P, hm, "noBody reset per message"), c.FnPos(hm), "noBody = false", "handleMessage does not reset Parser.noBody: the next response on the connection inherits it and loses its body")
+	}
+}
+
+// c07TargetForms: O16.
+func c07TargetForms(c *Ctx) {
+	if parse := c.Fn("C07.O16", "(*nbhttp.Parser).Parse"); parse != nil {
+		fi := c.P.Info(parse)
+		byName := c.stateConsts()
+		eb := c.stateCases(parse)[byName["statePathBefore"]]
+		bad := "no entry into statePath from statePathBefore"
+		for _, cs := range c.P.CallsNamed(parse, "(*nbhttp.Parser).nextState") {
+			k, ok := ir.ConstInt(cs.Common.Args[1])
+			if !ok || k != byName["statePath"] || eb == nil || len(eb.Instrs) == 0 || !fi.Dominates(eb.Instrs[0], cs.In) {
+				continue
+			}
+			if bad == "no entry into statePath from statePathBefore" {
+				bad = ""
+			}
+			isStartByte := func(ft ir.Fact) bool {
+				cmp, ok := ir.DecodeIntCmp(ft.Cond)
+				if !ok || cmp.NotEq || !ft.Truth || cmp.TrueSet.Lo != cmp.TrueSet.Hi {
+					return false
+				}
+				return cmp.TrueSet.Lo == '/' || cmp.TrueSet.Lo == '*'
+			}
+			// every way from the case's entry to the call carries c == '/' or c == '*'
+			restricted := true
+			target := cs.In.Block()
+			var dfs func(b *ssa.BasicBlock, has bool, depth int, seen map[*ssa.BasicBlock]bool)
+			dfs = func(b *ssa.BasicBlock, has bool, depth int, seen map[*ssa.BasicBlock]bool) {
+				if b == target {
+					if !has {
+						restricted = false
+					}
+					return
+				}
+				if depth > 16 || seen[b] {
+					return
+				}
+				seen[b] = true
+				defer delete(seen, b)
+				for _, su := range b.Succs {
+					h := has
+					if i, ok := b.Instrs[len(b.Instrs)-1].(*ssa.If); ok && b.Succs[0] != b.Succs[1] {
+						k := 0
+						if b.Succs[1] == su {
+							k = 1
+						}
+						cnd, t := ir.StripNot(i.Cond, k == 0)
+						if isStartByte(ir.Fact{If: i, Cond: cnd, Truth: t}) {
+							h = true
+						}
+						// `c == '/' || c == '*'` written as one condition: a phi of its disjuncts
+						if phi, isPhi := cnd.(*ssa.Phi); isPhi && t && phi.Comment == "||" {
+							all := len(phi.Edges) > 0
+							for ei, e := range phi.Edges {
+								dc := e
+								if kb, isK := ir.ConstBool(e); isK && kb {
+									pb := phi.Block().Preds[ei]
+									if pi, ok := pb.Instrs[len(pb.Instrs)-1].(*ssa.If); ok {
+										dc = pi.Cond
+									}
+								}
+								if !isStartByte(ir.Fact{Cond: dc, Truth: true}) {
+									all = false
+								}
+							}
+							if all {
+								h = true
+							}
+						}
+					}
+					dfs(su, h, depth+1, seen)
+				}
+			}
+			dfs(eb, false, 0, map[*ssa.BasicBlock]bool{})
+			if restricted {
+				bad = "the request target may only start with '/' or '*' (" + c.Pos(cs.In) + "): an absolute-form target (GET http://host/path, what a proxy receives) and the authority-form of CONNECT are rejected as invalid, although net/http accepts them"
+			}
+		}
+		c.Cond(bad == "", "C07.O16", fnKey(c.P, parse, "target start not restricted"), c.FnPos(parse), "any visible byte starts the target", bad)
+	}
+	if oc := c.Fn("C07.O16", "(*nbhttp.ServerProcessor).OnComplete"); oc != nil {
+		fi := c.P.Info(oc)
+		onEmpty, onSet := false, false
+		for _, st := range c.P.StoresTo(oc, "net/http.Request.Host") {
+			for _, ft := range fi.Facts(st) {
+				b, ok := ft.Cond.(*ssa.BinOp)
+				if !ok || (b.Op != token.EQL && b.Op != token.NEQ) {
+					continue
+				}
+				if s, isS := constString(b.Y); !isS || s != "" || c.P.LoadedField(ir.Resolve(b.X)) != "net/url.URL.Host" {
+					continue
+				}
+				if (b.Op == token.EQL) == ft.Truth {
+					onEmpty = true
+				} else {
+					onSet = true
+				}
+			}
+		}
+		c.Cond(onEmpty && onSet, "C07.O16", fnKey(c.P, oc, "Host on both edges of URL.Host"), c.FnPos(oc), "Request.Host assigned when the target has a host and when it has none",
+			"Request.Host is assigned only when the target has no host: for an absolute-form or authority-form target it stays empty, where net/http sets it to the target's host")
 	}
 }
